@@ -187,6 +187,7 @@ func anchorRule(c *eng.Ctx, fn *ssa.Function, anchorSuffix string, foreign eng.M
 
 func runC03(c *eng.Ctx) {
 	p := c.P
+	compactionOutputClaimedUntilInstalled(c)
 
 	// ---- 1/2/3. one atomic install; both input levels ---------------------------------------------------------------------
 	c.Rule("ORDER", cjT+".installCompactionResults{one commit}", func() { installOneCommit(c) })
@@ -240,6 +241,18 @@ func runC03(c *eng.Ctx) {
 		c.Check(!drop, "every-value-batched", val.Instr, f, "every value read from the input iterator is appended to the batch before the next entry is read", "a path returns to the loop head without appending the value")
 		merges := c.Some(f, invokeOn("", "Merge"), "merger.Merge")
 		c.Check(len(merges) >= 2, "merge-inside-and-after-loop", nil, f, "the merger is invoked when the key changes and once more after the loop for the last batch", fmt.Sprint(len(merges)))
+		// inside the loop a batch is merged only when the KEY CHANGED: the merger writes one entry per call and the table
+		// builder silently ignores a key that does not grow, so a second Merge for the same key loses its whole batch
+		for i, m := range merges {
+			if _, back := eng.Reaches(f, m.Instr, []eng.Site{nxt}, nil); !back {
+				continue // the trailing merge
+			}
+			_, same := eng.PathExists(eng.PathQuery{Fn: f, After: val.Instr, Target: func(in ssa.Instruction) bool { return in == m.Instr },
+				Blocked: func(in ssa.Instruction) bool { return in == nxt.Instr }, Edge: eng.ForbidEdges(ne)})
+			c.Check(len(ne) > 0 && !same, fmt.Sprintf("one-merge-per-key[%d]", i), m.Instr, f,
+				"inside the loop the batch is handed to the merger only on an edge that established key != previous key: every key is merged - and written - exactly once per compaction",
+				"merger.Merge is reachable within one iteration without the key having changed")
+		}
 		// the trailing merge: reachable from the loop exit, under len(needMerge) > 0
 		var tail eng.Site
 		for _, m := range merges {
